@@ -135,18 +135,21 @@ def _rename(e, mapping):
 
 
 CASE_TWINS = {"A": "A", "B": "a", "C": "B"}      # second alphabet {A, a, B}: names differing only in letter case
+SIGN_NAMES = {"A": "-A", "B": "A", "C": "+B"}    # third alphabet: names that start like a negated / signed literal
 
 
 def enum_exhaustive(tier, seed):
     d1 = all_trees(1)
     d2 = all_trees(2)
     if tier == "thorough":
-        return [{"ast": e} for e in d2] + [{"ast": _rename(e, CASE_TWINS)} for e in d2]
+        return ([{"ast": e} for e in d2] + [{"ast": _rename(e, CASE_TWINS)} for e in d2]
+                + [{"ast": _rename(e, SIGN_NAMES)} for e in d2[::3]])
     rest = d2[len(d1):]
     stride = 8
     off = int(seed) % stride
     twins = [{"ast": _rename(e, CASE_TWINS)} for e in d1] + [{"ast": _rename(e, CASE_TWINS)} for e in rest[(off + 3) % stride::stride]]
-    return [{"ast": e} for e in d1] + [{"ast": e} for e in rest[off::stride]] + twins
+    signs = [{"ast": _rename(e, SIGN_NAMES)} for e in d1] + [{"ast": _rename(e, SIGN_NAMES)} for e in rest[(off + 5) % stride::stride * 3]]
+    return [{"ast": e} for e in d1] + [{"ast": e} for e in rest[off::stride]] + twins + signs
 
 
 def simple_forms(a, b):
@@ -282,6 +285,15 @@ def check(case):
         except ValueError as err:
             out.append(("C18.split.malformed-tree", str(err)))
             parts = None
+        if parts is not None and com:
+            # pseudo-complex = 'can be transformed to a set of simple constraints' by the library's own transformation:
+            # the two reports and the split must tell one story
+            simple_parts = [lib(s_.is_simple_constraint) for s_ in splits]
+            if not any(isinstance(x, Raised) for x in simple_parts):
+                if pse is True and not all(simple_parts):
+                    out.append(("C18.pseudo-complex-but-split-has-a-non-simple-part", f"{[logic.canon(p_) for p_ in parts][:4]}"))
+                if stri is True and all(simple_parts) and parts:
+                    out.append(("C18.strict-complex-but-split-is-all-simple", f"{[logic.canon(p_) for p_ in parts][:4]}"))
         if parts is not None:
             if not parts:
                 out.append(("C18.split.empty", ""))
